@@ -879,9 +879,10 @@ Qed.
 (* ==================================================================================================== *)
 (* inhabitation of the hypotheses of the property theorems                                               *)
 (* ==================================================================================================== *)
-(* an observation of the real pyscript (legacy subsystem: task 0 of scripts.a claims "x" directly and again through a helper of
-   the imported module, i.e. in context modules.pvh; the @task_unique("x") run of task 1 starts one second later and replaces it),
-   as recorded by harness/vh/workers/c13_unique.py *)
+(* an observation of the real pyscript (legacy subsystem): task 0 of scripts.a claims "x" directly and again through a helper of
+   the imported module (context modules.pvh), starts task 2 with task.create() and sleeps inside the module's helper; task 2 calls
+   task.unique("x", kill_me=True) meanwhile and is terminated; task 1 is a @task_unique("x") trigger closure made by the module's
+   factory (context modules.pvh) and replaces task 0 as owner of modules.pvh/"x" only.  Recorded by harness/vh/workers/c13_unique.py *)
 Definition example_case : ucase :=
     (let pv_s0 := {| o_n2t := []; o_t2n := []; o_ours := []; o_done := []; o_views := [[]; []; 
     []] |} in let pv_s1 := {| o_n2t := []; o_t2n := []; o_ours := [0%N]; o_done := []; o_views := [[]; []; 
@@ -892,27 +893,39 @@ Definition example_case : ucase :=
     (("scripts.a"%string, "x"%string), 0%N)]; o_t2n := [(0%N, ("modules.pvh"%string, "x"%string)); 
     (0%N, ("scripts.a"%string, "x"%string))]; o_ours := [0%N]; o_done := []; o_views := [[("x"%string, 0%N)]; []; 
     [("x"%string, 0%N)]] |} in let pv_s4 := {| o_n2t := [(("modules.pvh"%string, "x"%string), 0%N); 
-    (("scripts.a"%string, "x"%string), 1%N)]; o_t2n := [(0%N, ("modules.pvh"%string, "x"%string)); 
-    (1%N, ("scripts.a"%string, "x"%string))]; o_ours := [0%N; 1%N]; o_done := []; o_views := [[("x"%string, 1%N)]; 
-    []; [("x"%string, 0%N)]] |} in let pv_s5 := {| o_n2t := [(("scripts.a"%string, "x"%string), 1%N)]; 
-    o_t2n := [(1%N, ("scripts.a"%string, "x"%string))]; o_ours := [1%N]; o_done := [(0%N, true)]; 
-    o_views := [[("x"%string, 1%N)]; []; []] |} in let pv_s6 := {| o_n2t := []; o_t2n := []; o_ours := []; 
-    o_done := [(0%N, true); (1%N, false)]; o_views := [[]; []; []] |} in {| uc_legacy := true; 
+    (("scripts.a"%string, "x"%string), 0%N)]; o_t2n := [(0%N, ("modules.pvh"%string, "x"%string)); 
+    (0%N, ("scripts.a"%string, "x"%string))]; o_ours := [0%N; 2%N]; o_done := []; o_views := [[("x"%string, 0%N)]; 
+    []; [("x"%string, 0%N)]] |} in let pv_s5 := {| o_n2t := [(("modules.pvh"%string, "x"%string), 0%N); 
+    (("scripts.a"%string, "x"%string), 0%N)]; o_t2n := [(0%N, ("modules.pvh"%string, "x"%string)); 
+    (0%N, ("scripts.a"%string, "x"%string))]; o_ours := [0%N]; o_done := [(2%N, true)]; 
+    o_views := [[("x"%string, 0%N)]; []; 
+    [("x"%string, 0%N)]] |} in let pv_s6 := {| o_n2t := [(("modules.pvh"%string, "x"%string), 1%N); 
+    (("scripts.a"%string, "x"%string), 0%N)]; o_t2n := [(0%N, ("scripts.a"%string, "x"%string)); 
+    (1%N, ("modules.pvh"%string, "x"%string))]; o_ours := [0%N; 1%N]; o_done := [(2%N, true)]; 
+    o_views := [[("x"%string, 0%N)]; []; 
+    [("x"%string, 1%N)]] |} in let pv_s7 := {| o_n2t := [(("modules.pvh"%string, "x"%string), 1%N)]; 
+    o_t2n := [(1%N, ("modules.pvh"%string, "x"%string))]; o_ours := [1%N]; o_done := [(0%N, true); (2%N, true)]; 
+    o_views := [[]; []; [("x"%string, 1%N)]] |} in let pv_s8 := {| o_n2t := []; o_t2n := []; o_ours := []; 
+    o_done := [(0%N, true); (1%N, false); (2%N, true)]; o_views := [[]; []; []] |} in {| uc_legacy := true; 
     uc_ctxs := ["scripts.a"%string; "scripts.c"%string; "modules.pvh"%string]; uc_tasks := [{| ti_ctx := 0%nat; 
-    ti_ours := true; ti_dec := None |}; {| ti_ctx := 0%nat; ti_ours := true; 
-    ti_dec := (Some ("x"%string, false)) |}]; uc_horizon := 4%N; uc_events := [{| e_kind := KFire 0%N; 
-    e_own := None; e_snap := pv_s0 |}; {| e_kind := KBegin 0%N; e_own := (Some (0%nat, [])); e_snap := pv_s1 |}; 
+    ti_ours := true; ti_dec := None; ti_created := false |}; {| ti_ctx := 2%nat; ti_ours := true; 
+    ti_dec := (Some ("x"%string, false)); ti_created := false |}; {| ti_ctx := 0%nat; ti_ours := true; 
+    ti_dec := None; ti_created := true |}]; uc_horizon := 4%N; uc_events := [{| e_kind := KFire 0%N; e_own := None; 
+    e_snap := pv_s0 |}; {| e_kind := KBegin 0%N; e_own := (Some (0%nat, [])); e_snap := pv_s1 |}; 
     {| e_kind := KPre 0%N 0%nat "x"%string false; e_own := (Some (0%nat, [])); e_snap := pv_s1 |}; 
     {| e_kind := KPost 0%N (Some 0%N); e_own := (Some (0%nat, [("x"%string, 0%N)])); e_snap := pv_s2 |}; 
     {| e_kind := KPre 0%N 2%nat "x"%string false; e_own := (Some (2%nat, [])); e_snap := pv_s2 |}; 
     {| e_kind := KPost 0%N (Some 0%N); e_own := (Some (2%nat, [("x"%string, 0%N)])); e_snap := pv_s3 |}; 
-    {| e_kind := KNop 0%N; e_own := (Some (0%nat, [("x"%string, 0%N)])); e_snap := pv_s3 |}; {| e_kind := KQuiet; 
-    e_own := None; e_snap := pv_s3 |}; {| e_kind := KFire 1%N; e_own := None; e_snap := pv_s3 |}; 
-    {| e_kind := KBegin 1%N; e_own := (Some (0%nat, [("x"%string, 1%N)])); e_snap := pv_s4 |}; {| e_kind := KQuiet; 
-    e_own := None; e_snap := pv_s5 |}; {| e_kind := KNop 1%N; e_own := (Some (0%nat, [("x"%string, 1%N)])); 
-    e_snap := pv_s5 |}; {| e_kind := KNop 1%N; e_own := (Some (0%nat, [("x"%string, 1%N)])); e_snap := pv_s5 |}; 
-    {| e_kind := KQuiet; e_own := None; e_snap := pv_s6 |}; {| e_kind := KQuiet; e_own := None; e_snap := pv_s6 |}; 
-    {| e_kind := KQuiet; e_own := None; e_snap := pv_s6 |}]; uc_sane := true |}).
+    {| e_kind := KNop 0%N; e_own := (Some (0%nat, [("x"%string, 0%N)])); e_snap := pv_s3 |}; {| e_kind := KNop 0%N; 
+    e_own := (Some (0%nat, [("x"%string, 0%N)])); e_snap := pv_s3 |}; {| e_kind := KBegin 2%N; 
+    e_own := (Some (0%nat, [("x"%string, 0%N)])); e_snap := pv_s4 |}; {| e_kind := KPre 2%N 0%nat "x"%string true; 
+    e_own := (Some (0%nat, [("x"%string, 0%N)])); e_snap := pv_s4 |}; {| e_kind := KQuiet; e_own := None; 
+    e_snap := pv_s5 |}; {| e_kind := KFire 1%N; e_own := None; e_snap := pv_s5 |}; {| e_kind := KBegin 1%N; 
+    e_own := (Some (2%nat, [("x"%string, 1%N)])); e_snap := pv_s6 |}; {| e_kind := KQuiet; e_own := None; 
+    e_snap := pv_s7 |}; {| e_kind := KNop 1%N; e_own := (Some (2%nat, [("x"%string, 1%N)])); e_snap := pv_s7 |}; 
+    {| e_kind := KNop 1%N; e_own := (Some (2%nat, [("x"%string, 1%N)])); e_snap := pv_s7 |}; {| e_kind := KQuiet; 
+    e_own := None; e_snap := pv_s8 |}; {| e_kind := KQuiet; e_own := None; e_snap := pv_s8 |}; {| e_kind := KQuiet; 
+    e_own := None; e_snap := pv_s8 |}]; uc_sane := true |}).
 
 Example validated_inhabited : ucase_model_ok all_off example_case = true /\ ucase_spec_ok example_case = true.
 Proof. vm_compute. auto. Qed.
